@@ -22,6 +22,8 @@ deriving DecidableEq, Repr
 inductive Err
   | missingHeader | invalidHeader | duplicateHeader | unexpectedChar (b : Nat) | invalidLiteral
   | unterminated | clauseCount (expected parsed : Nat)
+  /-- WCNF only: the clause callback indexes `clause[0]` and converts it to a `NonZeroU32` weight -/
+  | panicked
 deriving DecidableEq, Repr
 
 structure P where
@@ -30,6 +32,10 @@ structure P where
   cur : List Int := []
   hdr : Option (Nat × Nat) := none
   out : List (List Int) := []
+  /-- `parse_wcnf` instead of `parse_cnf`: header `p wcnf <vars> <clauses> <top>`, first number of
+  every clause is its weight -/
+  wcnf : Bool := false
+  top : Nat := 0
 deriving DecidableEq, Repr
 
 /-- `u8::is_ascii_whitespace`: space, tab, LF, FF, CR (not VT) -/
@@ -89,18 +95,46 @@ def parseHeader (buf : List Nat) : Option (Nat × Nat) :=
       | _, _ => none
     | _ => none
 
+/-- "p wcnf " -/
+def wcnfPrefix : List Nat := [112, 32, 119, 99, 110, 102, 32]
+
+/-- `WCNFHeader::from_str` (the top weight is a `u64`, parsed like a `usize` here: 64 bit) -/
+def parseHeaderW (buf : List Nat) : Option (Nat × Nat × Nat) :=
+  if !startsWith wcnfPrefix buf then none
+  else
+    match (tokens buf).drop 2 with
+    | [a, b, c] =>
+      match parseUsize a, parseUsize b, parseUsize c with
+      | some nv, some nc, some top => some (nv, nc, top)
+      | _, _, _ => none
+    | _ => none
+
 def initFormula (p : P) : Except Err P :=
-  match parseHeader p.buf with
-  | none => .error .invalidHeader
-  | some h =>
-    match p.hdr with
-    | some _ => .error .duplicateHeader
-    | none => .ok { p with hdr := some h }
+  if p.wcnf then
+    match parseHeaderW p.buf with
+    | none => .error .invalidHeader
+    | some (nv, nc, top) =>
+      match p.hdr with
+      | some _ => .error .duplicateHeader
+      | none => .ok { p with hdr := some (nv, nc), top := top }
+  else
+    match parseHeader p.buf with
+    | none => .error .invalidHeader
+    | some h =>
+      match p.hdr with
+      | some _ => .error .duplicateHeader
+      | none => .ok { p with hdr := some h }
 
 def finishClause (p : P) : Except Err P :=
   match p.hdr with
   | none => .error .missingHeader
-  | some _ => .ok { p with out := p.out ++ [p.cur], cur := [] }
+  | some _ =>
+    if p.wcnf then
+      -- the callback of `parse_wcnf`: `clause[0].try_into::<NonZeroU32>().unwrap()`
+      match p.cur with
+      | [] => .error .panicked
+      | w :: _ => if w ≤ 0 then .error .panicked else .ok { p with out := p.out ++ [p.cur], cur := [] }
+    else .ok { p with out := p.out ++ [p.cur], cur := [] }
 
 def finishLiteral (p : P) : Except Err P :=
   match parseI32 p.buf with
@@ -170,6 +204,24 @@ def parseCnf (bytes : List Nat) : Except Err (Nat × List (List Int)) :=
   match run {} bytes with
   | .error e => .error e
   | .ok p => complete p
+
+/-- `parse_wcnf`: hard clauses (weight = top) and weighted soft clauses, in file order -/
+def parseWcnf (bytes : List Nat) : Except Err (Nat × List (Option Nat × List Int)) :=
+  match run { wcnf := true } bytes with
+  | .error e => .error e
+  | .ok p =>
+    match (if p.st == .header then initFormula p else .ok p) with
+    | .error e => .error e
+    | .ok p =>
+      match p.hdr with
+      | none => .error .missingHeader
+      | some (nv, nc) =>
+        if !p.cur.isEmpty then .error .unterminated
+        else if nc ≠ p.out.length then .error (.clauseCount nc p.out.length)
+        else .ok (nv, p.out.map (fun c =>
+          match c with
+          | w :: rest => if w.toNat == p.top then (none, rest) else (some w.toNat, rest)
+          | [] => (none, [])))
 
 theorem run_append (p : P) (xs ys : List Nat) :
     run p (xs ++ ys) = (match run p xs with | .ok p' => run p' ys | .error e => .error e) := by
